@@ -7,6 +7,7 @@ package vsync
 
 import (
 	"sync"
+	"unsafe"
 
 	"github.com/osrg/gobgp/v4/internal/verif/sched"
 )
@@ -29,7 +30,7 @@ type Mutex struct {
 
 func (m *Mutex) Lock() {
 	if s := inThread(); s != nil {
-		s.Point("mutex.lock")
+		s.PointObj("mutex.lock", uintptr(unsafe.Pointer(m)), true)
 		if m.lheld {
 			s.Block("mutex", func() bool { return !m.lheld })
 		}
@@ -41,7 +42,7 @@ func (m *Mutex) Lock() {
 
 func (m *Mutex) TryLock() bool {
 	if s := inThread(); s != nil {
-		s.Point("mutex.trylock")
+		s.PointObj("mutex.trylock", uintptr(unsafe.Pointer(m)), true)
 		if m.lheld {
 			return false
 		}
@@ -72,7 +73,7 @@ type RWMutex struct {
 
 func (m *RWMutex) Lock() {
 	if s := inThread(); s != nil {
-		s.Point("rw.lock")
+		s.PointObj("rw.lock", uintptr(unsafe.Pointer(m)), true)
 		if m.lwriter || m.lreaders > 0 {
 			s.Block("rw.lock", func() bool { return !m.lwriter && m.lreaders == 0 })
 		}
@@ -92,7 +93,7 @@ func (m *RWMutex) Unlock() {
 
 func (m *RWMutex) RLock() {
 	if s := inThread(); s != nil {
-		s.Point("rw.rlock")
+		s.PointObj("rw.rlock", uintptr(unsafe.Pointer(m)), false)
 		if m.lwriter {
 			s.Block("rw.rlock", func() bool { return !m.lwriter })
 		}
@@ -112,7 +113,7 @@ func (m *RWMutex) RUnlock() {
 
 func (m *RWMutex) TryLock() bool {
 	if s := inThread(); s != nil {
-		s.Point("rw.trylock")
+		s.PointObj("rw.trylock", uintptr(unsafe.Pointer(m)), true)
 		if m.lwriter || m.lreaders > 0 {
 			return false
 		}
@@ -124,7 +125,7 @@ func (m *RWMutex) TryLock() bool {
 
 func (m *RWMutex) TryRLock() bool {
 	if s := inThread(); s != nil {
-		s.Point("rw.tryrlock")
+		s.PointObj("rw.tryrlock", uintptr(unsafe.Pointer(m)), false)
 		if m.lwriter {
 			return false
 		}
@@ -166,7 +167,7 @@ func (w *WaitGroup) Done() {
 
 func (w *WaitGroup) Wait() {
 	if s := inThread(); s != nil {
-		s.Point("wg.wait")
+		s.PointObj("wg.wait", uintptr(unsafe.Pointer(w)), true)
 		if w.ln > 0 {
 			s.Block("wg", func() bool { return w.ln == 0 })
 		}
@@ -193,7 +194,7 @@ type Once struct {
 
 func (o *Once) Do(f func()) {
 	if s := inThread(); s != nil {
-		s.Point("once.do")
+		s.PointObj("once.do", uintptr(unsafe.Pointer(o)), true)
 		if o.ldone {
 			return
 		}
@@ -215,22 +216,37 @@ type Map struct {
 	m sync.Map
 }
 
-func pt(op string) {
+func pt(op string, obj unsafe.Pointer, write bool) {
 	if s := inThread(); s != nil {
-		s.Point(op)
+		s.PointObj(op, uintptr(obj), write)
 	}
 }
 
-func (m *Map) Load(k any) (any, bool)           { pt("map.load"); return m.m.Load(k) }
-func (m *Map) Store(k, v any)                   { pt("map.store"); m.m.Store(k, v) }
-func (m *Map) Delete(k any)                     { pt("map.delete"); m.m.Delete(k) }
-func (m *Map) Clear()                           { pt("map.clear"); m.m.Clear() }
-func (m *Map) Range(f func(k, v any) bool)      { pt("map.range"); m.m.Range(f) }
-func (m *Map) LoadOrStore(k, v any) (any, bool) { pt("map.loadorstore"); return m.m.LoadOrStore(k, v) }
-func (m *Map) LoadAndDelete(k any) (any, bool)  { pt("map.loadanddelete"); return m.m.LoadAndDelete(k) }
-func (m *Map) Swap(k, v any) (any, bool)        { pt("map.swap"); return m.m.Swap(k, v) }
-func (m *Map) CompareAndSwap(k, o, n any) bool  { pt("map.cas"); return m.m.CompareAndSwap(k, o, n) }
-func (m *Map) CompareAndDelete(k, o any) bool   { pt("map.cad"); return m.m.CompareAndDelete(k, o) }
+func (m *Map) Load(k any) (any, bool)      { pt("map.load", unsafe.Pointer(m), false); return m.m.Load(k) }
+func (m *Map) Store(k, v any)              { pt("map.store", unsafe.Pointer(m), true); m.m.Store(k, v) }
+func (m *Map) Delete(k any)                { pt("map.delete", unsafe.Pointer(m), true); m.m.Delete(k) }
+func (m *Map) Clear()                      { pt("map.clear", unsafe.Pointer(m), true); m.m.Clear() }
+func (m *Map) Range(f func(k, v any) bool) { pt("map.range", unsafe.Pointer(m), false); m.m.Range(f) }
+func (m *Map) LoadOrStore(k, v any) (any, bool) {
+	pt("map.loadorstore", unsafe.Pointer(m), true)
+	return m.m.LoadOrStore(k, v)
+}
+func (m *Map) LoadAndDelete(k any) (any, bool) {
+	pt("map.loadanddelete", unsafe.Pointer(m), true)
+	return m.m.LoadAndDelete(k)
+}
+func (m *Map) Swap(k, v any) (any, bool) {
+	pt("map.swap", unsafe.Pointer(m), true)
+	return m.m.Swap(k, v)
+}
+func (m *Map) CompareAndSwap(k, o, n any) bool {
+	pt("map.cas", unsafe.Pointer(m), true)
+	return m.m.CompareAndSwap(k, o, n)
+}
+func (m *Map) CompareAndDelete(k, o any) bool {
+	pt("map.cad", unsafe.Pointer(m), true)
+	return m.m.CompareAndDelete(k, o)
+}
 
 // Pool and Cond are not used by the rewritten packages; aliases keep the shim complete.
 type Pool = sync.Pool
